@@ -6,7 +6,7 @@
    An edit of one of those expressions changes a table and one of these proofs stops checking.  The
    comparisons are SEMANTIC (values for all sizes, by lia), so re-writing a statement without changing
    what it computes (while -> if -> std::min, a + b -> b + a, [1, D] -> [1, D + 1)) keeps them. *)
-From Coq Require Import ZArith List Bool Lia String QArith.
+From Coq Require Import ZArith List Bool Lia String QArith Lqa.
 From TK Require Import Shapes_Model Shapes_Spec Shapes_Proof_Base Shapes_Proof_Routines.
 From TK Require Import Validate_Model Mat_EigSelect Shapes_Src ShapesSrc Validate_C01 EigSelect_C01 Shapes_SrcTie.
 Import ListNotations.
@@ -28,7 +28,7 @@ Ltac facts_tac :=
     destruct (N / 2 <? nu) eqn:E1; [apply Z.ltb_lt in E1|apply Z.ltb_ge in E1];
     (destruct (N - 1 <? k) eqn:E2; [apply Z.ltb_lt in E2|apply Z.ltb_ge in E2]);
     repeat split; try lia; try nia
-  | split; reflexivity ].
+  | repeat split; reflexivity ].
 
 Theorem ref_facts_agree : facts_agree ref_facts.
 Proof. unfold ref_facts. facts_tac. Qed.
@@ -39,14 +39,95 @@ Proof. unfold gen_facts. facts_tac. Qed.
 
 Corollary src_facts_never_differ : forall E, nonneg E -> facts_differ_at gen_facts ref_facts E = false.
 Proof.
-  intros E HE. destruct src_facts_tied as (A & B & C). destruct ref_facts_agree as (A' & B' & C').
+  intros E HE. destruct src_facts_tied as (A & B & C & T1 & T2 & T3).
+  destruct ref_facts_agree as (A' & B' & C' & T1' & T2' & T3').
   specialize (A E HE). specialize (A' E HE).
   destruct A as (a1 & a2 & a3 & a4 & a5 & a6 & a7 & a8 & a9 & a10 & a11 & a12 & a13 & a14 & a15 & a16 & a17).
   destruct A' as (b1 & b2 & b3 & b4 & b5 & b6 & b7 & b8 & b9 & b10 & b11 & b12 & b13 & b14 & b15 & b16 & b17).
   unfold facts_differ_at.
   rewrite a1, a2, a3, a4, a5, a6, a7, a8, a9, a10, a11, a12, a13, a14, a15, a16, a17.
   rewrite b1, b2, b3, b4, b5, b6, b7, b8, b9, b10, b11, b12, b13, b14, b15, b16, b17.
-  rewrite B, B', C, C'. rewrite !Z.eqb_refl. reflexivity.
+  rewrite B, B', C, C', T1, T1', T2, T2', T3, T3'. rewrite !Z.eqb_refl. reflexivity.
+Qed.
+
+(* ---------------------------------------------------------------- wave 3: exception safety / calling context / annealing *)
+(* no throw statement lexically inside an OpenMP region: whatever fails, no region of tapkee ends in std::terminate *)
+Theorem omp_regions_never_terminate : forall F, facts_agree F ->
+  forall fails, region_run (f_omp_throws F) fails = RegionDone.
+Proof. intros F (_ & _ & _ & T1 & _) fails. rewrite T1. reflexivity. Qed.
+
+Corollary src_omp_regions_never_terminate : forall fails, region_run (f_omp_throws gen_facts) fails = RegionDone.
+Proof. exact (omp_regions_never_terminate gen_facts src_facts_tied). Qed.
+
+Theorem omp_throw_in_region_refuted : forall site rest fails,
+  fails site = true -> region_run (site :: rest) fails = RegionTerminate.
+Proof. intros site rest fails H. unfold region_run. cbn [existsb]. rewrite H. reflexivity. Qed.
+
+(* no orphaned work-sharing construct: every work-sharing loop of tapkee completes all of its iterations before the
+   calling thread continues, whatever the size T of the team the application calls from *)
+Definition site_eqb (a b : string * Z) : bool := String.eqb (fst a) (fst b) && (snd a =? snd b).
+
+Theorem omp_worksharing_complete : forall F, facts_agree F ->
+  forall site T n, ws_done (existsb (site_eqb site) (f_omp_orphans F)) T n = n.
+Proof. intros F (_ & _ & _ & _ & T2 & _) site T n. rewrite T2. reflexivity. Qed.
+
+Corollary src_omp_worksharing_complete : forall site T n,
+  ws_done (existsb (site_eqb site) (f_omp_orphans gen_facts)) T n = n.
+Proof. exact (omp_worksharing_complete gen_facts src_facts_tied). Qed.
+
+Theorem omp_orphan_refuted : forall T n, 1 < T -> T < n -> ws_done true T n < n.
+Proof.
+  intros T n HT Hn. unfold ws_done. cbn [andb]. destruct (1 <? T) eqn:E; [|apply Z.ltb_ge in E; lia].
+  apply Z.div_lt_upper_bound; nia.
+Qed.
+
+(* SPE annealing: dividing by the bound of the loop the statement sits in is always a division by >= 1, and the
+   learning rate stays in [0, 1] (finite) after any number of iterations *)
+Lemma anneal_step_ok : forall M lam, 1 <= M -> (0 <= lam)%Q -> (lam <= 1)%Q ->
+  exists l, anneal_step M lam = Some l /\ (0 <= l)%Q /\ (l <= 1)%Q.
+Proof.
+  intros M lam HM H0 H1. unfold anneal_step. destruct (M =? 0) eqn:E; [apply Z.eqb_eq in E; lia|].
+  eexists; split; [reflexivity|].
+  assert (HQ : (1 <= inject_Z M)%Q) by (change (inject_Z 1 <= inject_Z M)%Q; rewrite <- Zle_Qle; exact HM).
+  assert (Hne : ~ (inject_Z M == 0)%Q) by (intro Hc; rewrite Hc in HQ; apply (Qle_not_lt _ _ HQ); reflexivity).
+  assert (Hpos : (0 < inject_Z M)%Q) by (eapply Qlt_le_trans; [|exact HQ]; reflexivity).
+  set (x := (lam / inject_Z M)%Q).
+  assert (Hx : (x * inject_Z M == lam)%Q) by (unfold x; field; exact Hne).
+  assert (Hx0 : (0 <= x)%Q).
+  { unfold x. apply Qle_shift_div_l; [exact Hpos|]. rewrite Qmult_0_l. exact H0. }
+  generalize dependent x. generalize dependent (inject_Z M). intros m HQ Hne Hpos x Hx Hx0.
+  assert (Hxl : (x <= lam)%Q) by nra.
+  split; lra.
+Qed.
+
+Lemma spe_anneal_ok : forall iters M lam, 1 <= M -> (0 <= lam)%Q -> (lam <= 1)%Q ->
+  exists l, spe_anneal iters M lam = Some l /\ (0 <= l)%Q /\ (l <= 1)%Q.
+Proof.
+  induction iters as [|n IH]; intros M lam HM H0 H1; cbn [spe_anneal].
+  - exists lam. auto.
+  - destruct (anneal_step_ok M lam HM H0 H1) as (l & E & A & B). rewrite E. apply IH; assumption.
+Qed.
+
+Theorem spe_lambda_finite : forall bound,
+  exists l, spe_lambda_final bound bound = Some l /\ (0 <= l)%Q /\ (l <= 1)%Q.
+Proof.
+  intros bound. unfold spe_lambda_final. destruct (Z_lt_le_dec bound 1) as [Hs|Hb].
+  - replace (Z.to_nat bound) with O by lia. cbn [spe_anneal]. exists 1%Q. repeat split; unfold Qle; cbn; lia.
+  - apply spe_anneal_ok; [exact Hb|unfold Qle; cbn; lia|unfold Qle; cbn; lia].
+Qed.
+
+(* as the source has it *)
+Corollary src_spe_lambda_finite : forall bound other,
+  exists l, spe_lambda_src gen_facts bound other = Some l /\ (0 <= l)%Q /\ (l <= 1)%Q.
+Proof.
+  intros bound other. unfold spe_lambda_src. destruct src_facts_tied as (_ & _ & _ & _ & _ & T3). rewrite T3.
+  apply spe_lambda_finite.
+Qed.
+
+(* a divisor that is NOT the loop bound: max_iteration = 0 ("automatic") with a loop that runs >= 1 times *)
+Theorem spe_lambda_other_divisor_refuted : forall bound, 1 <= bound -> spe_lambda_final bound 0 = None.
+Proof.
+  intros bound Hb. unfold spe_lambda_final. destruct (Z.to_nat bound) as [|n] eqn:E; [lia|]. reflexivity.
 Qed.
 
 (* the SPE clamp as the source writes it: at most half of the points form the first index set *)
